@@ -30,6 +30,7 @@ type histCfg struct {
 	decks                []string
 	between              []string // membership ops allowed between hands: arrive sitout rebuy leave-busted leave-live addon none
 	late                 []string // ops allowed between hands after the next hand has been set up (during the open-game wait)
+	retry                []string // ops allowed while tableGameOpen sleeps in its retry loop (first attempt failed)
 	mid                  []string // ops allowed at the first wager request: arrive addon-part rebuy-part leave-sitout leave-part none
 	finish               []string // settlement-finished policies available: all none first
 	newStack             int64
@@ -333,6 +334,16 @@ func runHist0(prefix []int, hc *histCfg, vcfg vrt.Config, mk func(h *hist) []Mon
 				td.env.Settle()
 			}
 		}
+		if len(hc.retry) > 0 {
+			cfg.retry = func(td *TD, hand int) {
+				op := hc.retry[env.ChooseDev(len(hc.retry), "retry")]
+				if op != "none" {
+					d := h.apply(op)
+					h.events = append(h.events, "during-open-retry:"+d)
+					td.env.Settle()
+				}
+			}
+		}
 		cfg.atWager = func(td *TD, hand int, nth int) {
 			if nth != 0 || h.midDone[hand] {
 				return
@@ -344,7 +355,7 @@ func runHist0(prefix []int, hc *histCfg, vcfg vrt.Config, mk func(h *hist) []Mon
 				td.env.Settle()
 			}
 		}
-		r := &runner{td: td, hc: cfg, wagerN: map[int]int{}, betweenDone: map[int]bool{}, lateDone: map[int]bool{}}
+		r := &runner{td: td, hc: cfg, wagerN: map[int]int{}, betweenDone: map[int]bool{}, lateDone: map[int]bool{}, retryDone: map[int]bool{}}
 		r.taint = func() string { return h.taint }
 		r.mons = mk(h)
 		pickHand(1)
